@@ -616,6 +616,10 @@ func balloonCmd(out *cq.Out, seed uint64, tier string) {
 			if rng.Intn(3) == 0 {
 				s := uint64(rng.Intn(len(r.events) + 2))
 				e := uint64(rng.Intn(len(r.events) + 2))
+				if rng.Intn(4) == 0 {
+					e = uint64(len(r.events) - 1) // the newest version
+					s = uint64(rng.Intn(len(r.events)))
+				}
 				var ip *balloon.IncrementalProof
 				var err error
 				cls, verdict := 0, 1
